@@ -317,10 +317,38 @@ func unmarshalAsCountersignature(value cbor.RawMessage) (any, error) {
 	}
 	var result2 []*Countersignature
 	err = decMode.Unmarshal(value, &result2)
-	if err == nil {
+	if err == nil && isCountersignatureList(result2) {
 		return result2, nil
 	}
 	return nil, errors.New("invalid Countersignature object / list of objects")
+}
+
+// isCountersignatureList reports whether list is a non-empty list of
+// Countersignature objects, as required by RFC 9338 Section 3.1:
+//
+//	COSE_Countersignature_or_list = COSE_Countersignature / [+ COSE_Countersignature]
+func isCountersignatureList(list []*Countersignature) bool {
+	if len(list) == 0 {
+		return false
+	}
+	for _, sig := range list {
+		if sig == nil {
+			return false
+		}
+	}
+	return true
+}
+
+// isCountersignatureValue reports whether value is a Countersignature object
+// or a non-empty list of Countersignature objects.
+func isCountersignatureValue(value any) bool {
+	switch v := value.(type) {
+	case *Countersignature:
+		return v != nil
+	case []*Countersignature:
+		return isCountersignatureList(v)
+	}
+	return false
 }
 
 // unmarshalAsAny produces simple types.
@@ -600,10 +628,8 @@ func validateHeaderParameters(h map[any]any, protected bool) error {
 			if protected {
 				return errors.New("header parameter: counter signature: not allowed")
 			}
-			if _, ok := value.(*Countersignature); !ok {
-				if _, ok := value.([]*Countersignature); !ok {
-					return errors.New("header parameter: counter signature is not a Countersignature or a list")
-				}
+			if !isCountersignatureValue(value) {
+				return errors.New("header parameter: counter signature is not a Countersignature or a list")
 			}
 		case HeaderLabelCounterSignature0:
 			if protected {
@@ -616,10 +642,8 @@ func validateHeaderParameters(h map[any]any, protected bool) error {
 			if protected {
 				return errors.New("header parameter: Countersignature version 2: not allowed")
 			}
-			if _, ok := value.(*Countersignature); !ok {
-				if _, ok := value.([]*Countersignature); !ok {
-					return errors.New("header parameter: Countersignature version 2 is not a Countersignature or a list")
-				}
+			if !isCountersignatureValue(value) {
+				return errors.New("header parameter: Countersignature version 2 is not a Countersignature or a list")
 			}
 		case HeaderLabelCounterSignature0V2:
 			if protected {
